@@ -1167,3 +1167,126 @@ M("C12-fork-takes-larger-lst", "C12", "R12.2b", WF,
   """                    if pre_lft < 0 or pre_lft <= lft:
                         prev_task.lst = lst
                         prev_task.lft = lft""")
+
+# ---------------------------------------------------------------------------------------- lessons of the independent seeds (round 1)
+M("C03-release-guard-by-state", "C03", "R3.3", WF,
+  """                        if len(worker.assigned_task_list) > 0 and all(list(map(lambda task: task.state == BaseTaskState.FINISHED, worker.assigned_task_list))):""",
+  """                        if worker.state == BaseWorkerState.WORKING:""")
+M("C05-release-guard-by-state", "C05", "R3.3", WF,
+  """                            if len(facility.assigned_task_list) > 0 and all(list(map(lambda task: task.state == BaseTaskState.FINISHED, facility.assigned_task_list))):""",
+  """                            if facility.state == BaseFacilityState.WORKING:""")
+M("C04-absence-refresh-before-update", "C04", "R4.4", PJ,
+  """            self.__update()
+            state_list = list(map(lambda task: task.state, self.workflow.task_list))""",
+  """            if self.time not in absence_time_list:
+                self.organization.check_update_state_from_absence_time_list(self.time)
+            self.__update()
+            state_list = list(map(lambda task: task.state, self.workflow.task_list))""",
+  PJ,
+  """            if working:
+                self.organization.check_update_state_from_absence_time_list(self.time)
+            else:
+                self.organization.set_absence_state_to_all_workers_facilities()""",
+  """            if not working:
+                self.organization.set_absence_state_to_all_workers_facilities()""")
+M("C10-absence-refresh-before-update", "C10", "R4.4", PJ,
+  """            self.__update()
+            state_list = list(map(lambda task: task.state, self.workflow.task_list))""",
+  """            if self.time not in absence_time_list:
+                self.organization.check_update_state_from_absence_time_list(self.time)
+            self.__update()
+            state_list = list(map(lambda task: task.state, self.workflow.task_list))""",
+  PJ,
+  """            if working:
+                self.organization.check_update_state_from_absence_time_list(self.time)
+            else:
+                self.organization.set_absence_state_to_all_workers_facilities()""",
+  """            if not working:
+                self.organization.set_absence_state_to_all_workers_facilities()""")
+M("C06-break-on-rejected-candidate", "C06", "R6.3", PJ,
+  """                        if task.can_add_resources(worker=worker):
+                            task.allocated_worker_list.append(worker)
+                            worker.assigned_task_list.append(task)
+                            free_worker_list = [w for w in free_worker_list if w.ID != worker.ID]""",
+  """                        if task.can_add_resources(worker=worker):
+                            task.allocated_worker_list.append(worker)
+                            worker.assigned_task_list.append(task)
+                            free_worker_list = [w for w in free_worker_list if w.ID != worker.ID]
+                        elif len(task.allocated_worker_list) > 0:
+                            break""")
+M("C11-break-on-rejected-candidate", "C11", "R11.5", PJ,
+  """                        if task.can_add_resources(worker=worker):
+                            task.allocated_worker_list.append(worker)
+                            worker.assigned_task_list.append(task)
+                            free_worker_list = [w for w in free_worker_list if w.ID != worker.ID]""",
+  """                        if not task.can_add_resources(worker=worker):
+                            break
+                        task.allocated_worker_list.append(worker)
+                        worker.assigned_task_list.append(task)
+                        free_worker_list = [w for w in free_worker_list if w.ID != worker.ID]""")
+M("C08-positional-initialize-args", "C08", "R15.1", WP,
+  """            w.initialize(state_info=state_info, log_info=log_info)""",
+  """            w.initialize(state_info, log_info)""")
+M("C16-conditional-relink", "C16", "R16.2", PJ,
+  """            for w in x.worker_list:
+                w.assigned_task_list = [self.workflow.get_task_list(ID=ID)[0] for ID in w.assigned_task_list]""",
+  """            for w in x.worker_list:
+                if w.state == BaseWorkerState.WORKING:
+                    w.assigned_task_list = [self.workflow.get_task_list(ID=ID)[0] for ID in w.assigned_task_list]""")
+M("C13-space-counts-parentless-only", "C13", "R13.3", WP,
+  """        use_space_size = sum([c.space_size for c in self.placed_component_list])""",
+  """        use_space_size = sum([c.space_size for c in self.placed_component_list if len(c.parent_component_list) == 0])""")
+M("C14-max-over-started-tasks", "C14", "R14.1", CP,
+  """    def check_state(self):
+        \"\"\"Check and update the `state` of this component.\"\"\"
+        self.__check_ready()
+        self.__check_working()
+        self.__check_finished()""",
+  """    def check_state(self):
+        \"\"\"Check and update the `state` of this component.\"\"\"
+        if len(self.targeted_task_list) == 0:
+            self.state = BaseComponentState.FINISHED
+            return
+        state_list = [t.state for t in self.targeted_task_list if t.state != BaseTaskState.NONE]
+        if len(state_list) > 0:
+            self.state = BaseComponentState(max(state_list))""")
+M("C09-restore-before-cleanup", "C09", "R17.1", PJ,
+  """            self.simulation_mode = SimulationMode.BACKWARD
+            for autotask in autotask_removing_after_simulation:""",
+  """            self.simulation_mode = SimulationMode.BACKWARD
+            self.workflow.reverse_dependencies()
+            self.organization.reverse_dependencies()
+            for autotask in autotask_removing_after_simulation:""",
+  PJ,
+  """            if reverse_log_information:
+                self.reverse_log_information()
+            self.workflow.reverse_dependencies()
+            self.organization.reverse_dependencies()""",
+  """            if reverse_log_information:
+                self.reverse_log_information()""")
+B("benign-check-state-max-form", ["C14"], CP,
+  """    def check_state(self):
+        \"\"\"Check and update the `state` of this component.\"\"\"
+        self.__check_ready()
+        self.__check_working()
+        self.__check_finished()""",
+  """    def check_state(self):
+        \"\"\"Check and update the `state` of this component.\"\"\"
+        states = [t.state for t in self.targeted_task_list]
+        if all([s == BaseTaskState.FINISHED for s in states]):
+            self.state = BaseComponentState.FINISHED
+        elif any([s == BaseTaskState.WORKING for s in states]):
+            self.state = BaseComponentState.WORKING
+        elif any([s == BaseTaskState.READY for s in states]):
+            self.state = BaseComponentState.READY""")
+B("benign-absence-set-before-loop", ["C10", "C05", "C07", "C08"], PJ,
+  """        while True:
+            self.__update()""",
+  """        absence_steps = set(absence_time_list)
+        while True:
+            self.__update()""",
+  PJ,
+  """            if self.time in absence_time_list:
+                working = False""",
+  """            if self.time in absence_steps:
+                working = False""")
